@@ -35,7 +35,7 @@ BaseFn(b, X) ==
          y2 |-> [k \in 1..(Len(X)-1) |-> IF Kind = "pwl" THEN GenY2(b, k) ELSE GenY1(b, k)]]
 Null == [x |-> <<>>, y1 |-> <<>>, y2 |-> <<>>]
 Alloc(id) == obj[id].x # <<>>
-NoOp == [f |-> "init", d |-> 0, s |-> 0, c |-> Zero]
+NoOp == [f |-> "init", d |-> 0, s |-> 0, c |-> Zero, ss |-> <<>>]
 ----------------------------------------------------------------------------
 AddFn(f, g) == AddK(Kind, f, g)
 Scale(f, c) == ScaleK(Kind, f, c)
@@ -87,16 +87,27 @@ Add(d, s) == /\ Alloc(d) /\ Alloc(s) /\ nops < MaxOps
              /\ obj' = [obj EXCEPT ![d] = AddFn(obj[d], obj[s])]
              /\ gy' = [gy EXCEPT ![d] = [b \in Bases |-> RAdd(gy[d][b], gy[s][b])]]
              /\ gm' = [gm EXCEPT ![d] = [b \in Bases |-> RAdd(gm[d][b], gm[s][b])]]
-             /\ nops' = nops + 1 /\ op' = [f |-> "add", d |-> d, s |-> s, c |-> Zero] /\ UNCHANGED bx
+             /\ nops' = nops + 1 /\ op' = [f |-> "add", d |-> d, s |-> s, c |-> Zero, ss |-> <<>>] /\ UNCHANGED bx
 Mul(d, c) == /\ Alloc(d) /\ nops < MaxOps
              /\ obj' = [obj EXCEPT ![d] = Scale(obj[d], c)]
              /\ gy' = [gy EXCEPT ![d] = [b \in Bases |-> RMul(gy[d][b], c)]]
-             /\ nops' = nops + 1 /\ op' = [f |-> "mul", d |-> d, s |-> 0, c |-> c] /\ UNCHANGED <<bx, gm>>
+             /\ nops' = nops + 1 /\ op' = [f |-> "mul", d |-> d, s |-> 0, c |-> c, ss |-> <<>>] /\ UNCHANGED <<bx, gm>>
 \* d = s.copy()
 Copy(d, s) == /\ Alloc(s) /\ d # s /\ nops < MaxOps
               /\ obj' = [obj EXCEPT ![d] = obj[s]] /\ gy' = [gy EXCEPT ![d] = gy[s]] /\ gm' = [gm EXCEPT ![d] = gm[s]]
-              /\ nops' = nops + 1 /\ op' = [f |-> "copy", d |-> d, s |-> s, c |-> Zero] /\ UNCHANGED bx
+              /\ nops' = nops + 1 /\ op' = [f |-> "copy", d |-> d, s |-> s, c |-> Zero, ss |-> <<>>] /\ UNCHANGED bx
+\* d = average_profile([objects of S in index order])  (DiscreteFunc.py:229-247): copy of the first,
+\* add the others, scale by 1/n; only defined for pwc / pwl profiles
+RECURSIVE FoldAdd(_,_)
+FoldAdd(seq, acc) == IF Len(seq) = 0 THEN acc ELSE FoldAdd(Tail(seq), AddFn(acc, obj[seq[1]]))
+Average(d, S) ==
+   LET seq == SortedSeq(S)  n == Len(seq) IN
+   /\ Kind # "disc" /\ n >= 2 /\ \A i \in S : Alloc(i) /\ nops < MaxOps
+   /\ obj' = [obj EXCEPT ![d] = Scale(FoldAdd(Tail(seq), obj[seq[1]]), <<1, n>>)]
+   /\ gy' = [gy EXCEPT ![d] = [b \in Bases |-> RDiv(RSum([k \in 1..n |-> gy[seq[k]][b]]), RI(n))]]
+   /\ nops' = nops + 1 /\ op' = [f |-> "avg", d |-> d, s |-> 0, c |-> Zero, ss |-> seq] /\ UNCHANGED <<bx, gm>>
 Next == \/ \E d, s \in Ids : Add(d, s)
+        \/ \E d \in Ids, S \in SUBSET Ids : Average(d, S)
         \/ \E d \in Ids, c \in {<<2,1>>, <<-1,2>>} : Mul(d, c)
         \/ \E d, s \in Ids : Copy(d, s)
 Spec == Init /\ [][Next]_vars
